@@ -15,7 +15,9 @@ EPS = np.finfo(float).eps
 
 
 def seg_int(s):
-    return 0 if s in (0, "approach") else 1
+    if s in ("approach", "retract"):
+        return 0 if s == "approach" else 1
+    return int(s)
 
 
 def expected_mask(x, seg, lo, hi):
@@ -127,6 +129,7 @@ def run(ctx):
             metas.append(meta)
     sequences(ctx)
     single_precision(ctx, lines, expect, metas)
+    dwell_curves(ctx, lines, expect, metas)
     out = ctx.driver("Fit", lines) if lines else None
     if out is not None:
         for (kind, val), o, meta in zip(expect, out, metas):
@@ -138,6 +141,55 @@ def run(ctx):
                 g = np.array(fitlib.parse_list(o))
                 if len(g) != len(val) or np.any(np.abs(g - val) > 8 * EPS * np.abs(val).max()):
                     ctx.disagree(meta, list(map(float, val[:3])), list(map(float, g[:3])), "plateau scan grid")
+
+
+def dwell_curves(ctx, lines, expect, metas):
+    """curves recorded with a pause: three segments (approach 0, dwell 1, retract 2); 'the requested segment' is
+    the one with the requested index"""
+    import warnings
+    rng = ctx.rng
+    for i in range(6 if ctx.tier == "quick" else 60):
+        mk = rng.choice(fitlib.MODELS[:3])
+        truth = fitlib.truth_params(mk, rng, cp=0.0)
+        idnt = fitlib.synth_curve_dwell(mk, truth, rng, noise=2e-11, seed=3000 + i)
+        segid = [2, 0, 2, 1, 2, 0][i % 6]
+        rt, rx = [("absolute", (0, 0)), ("absolute", (-6e-7, 4e-7)), ("absolute", (3e-7, -5e-7)),
+                  ("absolute", (0, 0)), ("relative cp", (-5e-7, 3e-7)), ("absolute", (-2e-7, 1e-6))][i % 6]
+        meta = {"stream": "dwell", "model": mk, "segment": segid, "range_type": rt, "range_x": list(rx), "i": i}
+        with warnings.catch_warnings():
+            warnings.simplefilter("ignore")
+            try:
+                idnt.fit_model(model_key=mk, range_type=rt, range_x=rx, segment=segid, preprocessing=[], weight_cp=0)
+            except BaseException as e:  # noqa
+                ctx.case({**meta, "result": repr(e)}, bucket=["stream=dwell", "result=raises"])
+                if segid != 1:
+                    ctx.violation("fit-raises:dwell", f"fitting segment {segid} of a three-segment curve raises {e!r}",
+                                  {"input": meta})
+                continue
+        x = np.asarray(idnt["tip position"], dtype=float)
+        seg = np.asarray(idnt["segment"]) == segid
+        used = np.asarray(idnt["fit range"], dtype=bool)
+        fp = idnt.fit_properties
+        ctx.case(meta, nontrivial=json.dumps(meta, sort_keys=True), bucket=["stream=dwell", f"segment={segid}"])
+        if np.any(used & ~seg):
+            ctx.violation("wrong-points:other-segment", f"{int(np.sum(used & ~seg))} of the points used are not in the "
+                          f"requested segment {segid} (segments of the curve: 0, 1, 2)", {"input": meta})
+            continue
+        if rt == "absolute":
+            lo, hi = min(rx), max(rx)
+            exp = expected_mask(x, seg, lo, hi)
+            if not np.array_equal(exp, used):
+                ctx.violation("wrong-points:absolute:dwell", f"{int(np.sum(exp != used))} points differ between the points "
+                              f"used and segment {segid} within [{lo}, {hi}]", {"input": meta})
+            lines.append({"op": "mask", "seg": [bool(b) for b in seg], "xs": [q(v) for v in x],
+                          "a": q(lo), "b": q(hi)})
+            expect.append(("mask", used))
+            metas.append(meta)
+        if fp.get("success") and used.sum() > 0:
+            xm, xM = x[used].min(), x[used].max()
+            if abs(fp["xmin"] - xm) > 4 * EPS * abs(xm) or abs(fp["xmax"] - xM) > 4 * EPS * abs(xM):
+                ctx.violation("xmin-xmax:dwell", f"xmin/xmax ({fp['xmin']}, {fp['xmax']}) are not the extreme abscissae of "
+                              f"the used points ({xm}, {xM})", {"input": meta})
 
 
 def single_precision(ctx, lines, expect, metas):
